@@ -156,9 +156,10 @@ pub fn main(tier: Tier, replay: Option<String>) -> i32 {
     rep.rule = "states = definition files built line by line from a menu of ranges x class sets (all orders, duplicates allowed) up to max_lines; every file that loads is queried on every probe code point (all range ends and their neighbours) and compared with the naive union of covering lines; non-trivial = two lines overlap, nest or touch; plus every Unicode scalar value against each char.def shipped in the repository".into();
     rep.assumptions = vec!["files that fail to load (e.g. a range ending at U+D7FF or U+10FFFF, whose exclusive end is not a scalar value) are outside the property and only counted".into()];
     let mut jobs: Vec<Box<dyn AnyJob>> = Vec::new();
-    let sets: Vec<Vec<&'static str>> = vec![vec!["KANJI"], vec!["ALPHA"], vec!["KANJI", "ALPHA"], vec!["NOOOVBOW"]];
+    // (an explicit DEFAULT class is a class like any other)
+    let sets: Vec<Vec<&'static str>> = vec![vec!["KANJI"], vec!["ALPHA"], vec!["KANJI", "ALPHA"], vec!["NOOOVBOW"], vec!["DEFAULT"]];
     // low domain incl. 0
-    let pts: Vec<u32> = tier.pick(vec![0, 1, 2, 3, 4, 5, 6], vec![0, 1, 2, 3, 4, 5, 6, 7, 8]);
+    let pts: Vec<u32> = tier.pick(vec![0, 1, 2, 3, 4, 5], vec![0, 1, 2, 3, 4, 5, 6, 7]);
     let menu = menu_low(&pts, &sets);
     let probes: Vec<u32> = (0..=10).collect();
     let b = json!({"menu_lines": menu.len(), "max_lines": tier.pick(3, 3), "domain": pts});
